@@ -4,6 +4,7 @@ import (
 	"fmt"
 	"os"
 	"sort"
+	"strconv"
 	"strings"
 
 	"golang.org/x/tools/go/ssa"
@@ -122,9 +123,19 @@ func (e *Engine) finishResults(fr *Frame, results []Result) []Result {
 		}
 	}
 	results = live
+	// loop lineages of this activation (and of its callees) mean nothing to the caller
+	for _, r := range results {
+		for k := range r.st.lins {
+			if k[0] >= fr.id {
+				delete(r.st.lins, k)
+			}
+		}
+	}
 	// one disjunct per (return site, known bool result): duplicates produced by
 	// loop lineages are merged, semantic distinctions are kept
-	group := func(keyOf func(r Result) string, tag string) []Result {
+	// group joins results with equal keys; with limit > 0 it joins only as many
+	// groups (largest first) as it takes to get down to limit results
+	group := func(keyOf func(r Result) string, tag string, limit int) []Result {
 		groups := map[string][]Result{}
 		var order []string
 		for _, r := range results {
@@ -134,13 +145,8 @@ func (e *Engine) finishResults(fr *Frame, results []Result) []Result {
 			}
 			groups[k] = append(groups[k], r)
 		}
-		var out []Result
-		for gi, k := range order {
-			g := groups[k]
-			if len(g) == 1 {
-				out = append(out, g[0])
-				continue
-			}
+		joinG := func(gi int) {
+			g := groups[order[gi]]
 			var ss []*State
 			for _, r := range g {
 				r.st.vals[vkey{-fr.id, nil}] = r.ret
@@ -152,7 +158,30 @@ func (e *Engine) finishResults(fr *Frame, results []Result) []Result {
 			if ret == nil {
 				ret = e.unk()
 			}
-			out = append(out, Result{j, ret, g[0].site})
+			groups[order[gi]] = []Result{{j, ret, g[0].site}}
+		}
+		if limit > 0 && len(order) <= limit {
+			total := len(results)
+			for total > limit {
+				best := -1
+				for gi, k := range order {
+					if n := len(groups[k]); n > 1 && (best < 0 || n > len(groups[order[best]])) {
+						best = gi
+					}
+				}
+				total -= len(groups[order[best]]) - 1
+				joinG(best)
+			}
+		} else {
+			for gi, k := range order {
+				if len(groups[k]) > 1 {
+					joinG(gi)
+				}
+			}
+		}
+		var out []Result
+		for _, k := range order {
+			out = append(out, groups[k]...)
 		}
 		return out
 	}
@@ -166,11 +195,26 @@ func (e *Engine) finishResults(fr *Frame, results []Result) []Result {
 	for _, r := range results {
 		sites[r.site] = true
 	}
-	if len(results) > len(sites) && len(results) > e.Cfg.K/2 {
-		results = group(func(r Result) string { return fmt.Sprintf("%p|%s|%s", r.site, boolKey(r), partitionKey(r.st)) }, "site")
+	if fr.Depth() == 0 {
+		return results // nobody consumes a root's results
 	}
-	if len(results) > e.Cfg.K {
-		results = group(boolKey, "bool")
+	K := e.Cfg.K
+	if len(results) > len(sites) && len(results) > K/2 {
+		results = group(func(r Result) string {
+			return fmt.Sprintf("%p|%s|%s|%s", r.site, boolKey(r), partitionKey(r.st), shapeKey(r.st))
+		}, "site", 0)
+	}
+	if len(results) > K {
+		results = group(func(r Result) string { return fmt.Sprintf("%p|%s|%s", r.site, boolKey(r), partitionKey(r.st)) }, "site1", K)
+	}
+	if len(results) > K {
+		results = group(func(r Result) string { return fmt.Sprintf("%p|%s", r.site, boolKey(r)) }, "site2", K)
+	}
+	if len(results) > K {
+		results = group(func(r Result) string { return boolKey(r) + "|" + partitionKey(r.st) + "|" + shapeKey(r.st) }, "shape", K)
+	}
+	if len(results) > K {
+		results = group(boolKey, "bool", K)
 	}
 	return results
 }
@@ -229,7 +273,7 @@ func (e *Engine) runPass(pc *passCtx, pass int, final bool) bool {
 			continue
 		}
 		cur := ins
-		for _, instr := range b.Instrs {
+		for ii, instr := range b.Instrs {
 			switch t := instr.(type) {
 			case *ssa.Phi:
 				continue
@@ -286,7 +330,17 @@ func (e *Engine) runPass(pc *passCtx, pass int, final bool) bool {
 					nxt = append(nxt, e.exec(st, fr, instr)...)
 				}
 				cur = nxt
-				if len(cur) > e.Cfg.K {
+				// no merge on a straight line to a return: nothing multiplies there
+				retNext := false
+				if _, isRet := b.Instrs[len(b.Instrs)-1].(*ssa.Return); isRet {
+					retNext = true
+					for _, rest := range b.Instrs[ii+1:] {
+						if _, isCall := rest.(ssa.CallInstruction); isCall {
+							retNext = false
+						}
+					}
+				}
+				if len(cur) > e.Cfg.K && !retNext {
 					cur = e.mergeToK(cur, fr, fmt.Sprintf("i%d.%d.%s", fr.id, b.Index, nameOf(instr)))
 				}
 			}
@@ -310,30 +364,72 @@ func nameOf(ins ssa.Instruction) string {
 // part of states, so the key is the set of func-valued cells).
 func (e *Engine) mergeToK(ss []*State, fr *Frame, where string) []*State {
 	ss = e.dedupe(ss)
-	groups := map[string][]*State{}
-	var order []string
-	n := 0
+	var live []*State
 	for _, s := range ss {
-		if s.dead {
-			continue
+		if !s.dead {
+			live = append(live, s)
 		}
-		n++
-		k := partitionKey(s)
-		if _, ok := groups[k]; !ok {
-			order = append(order, k)
-		}
-		groups[k] = append(groups[k], s)
 	}
-	if n <= e.Cfg.K {
-		var live []*State
-		for _, s := range ss {
-			if !s.dead {
-				live = append(live, s)
-			}
-		}
+	if len(live) <= e.Cfg.K {
 		return live
 	}
-	// per group keep at most `quota` disjuncts: the first quota-1 as they are, the rest joined
+	// look-alikes first: states that agree on the partition key (function values,
+	// loop lineages), on every constant cell and on the number of live search hits
+	// lose the least when joined
+	type cluster struct {
+		pk  string
+		sts []*State
+	}
+	var cls []*cluster
+	idx := map[string]*cluster{}
+	for _, s := range live {
+		pk := partitionKey(s)
+		k := pk + "\x00" + shapeKey(s)
+		c := idx[k]
+		if c == nil {
+			c = &cluster{pk: pk}
+			idx[k] = c
+			cls = append(cls, c)
+		}
+		c.sts = append(c.sts, s)
+	}
+	total := len(live)
+	joinCl := func(ci int) {
+		c := cls[ci]
+		total -= len(c.sts) - 1
+		c.sts = []*State{e.joinAll(c.sts, fr, fmt.Sprintf("%s.s%d", where, ci), false)}
+	}
+	if len(cls) <= e.Cfg.K {
+		for total > e.Cfg.K {
+			best := -1
+			for ci, c := range cls {
+				if len(c.sts) > 1 && (best < 0 || len(c.sts) > len(cls[best].sts)) {
+					best = ci
+				}
+			}
+			joinCl(best)
+		}
+		var out []*State
+		for _, c := range cls {
+			out = append(out, c.sts...)
+		}
+		return out
+	}
+	for ci, c := range cls {
+		if len(c.sts) > 1 {
+			joinCl(ci)
+		}
+	}
+	// still too many shapes: per partition keep at most `quota` disjuncts, the
+	// first quota-1 as they are, the rest joined
+	groups := map[string][]*State{}
+	var order []string
+	for _, c := range cls {
+		if _, ok := groups[c.pk]; !ok {
+			order = append(order, c.pk)
+		}
+		groups[c.pk] = append(groups[c.pk], c.sts...)
+	}
 	quota := e.Cfg.K / len(order)
 	if quota < 1 {
 		quota = 1
@@ -349,6 +445,18 @@ func (e *Engine) mergeToK(ss []*State, fr *Frame, where string) []*State {
 		out = append(out, e.joinAll(g[quota-1:], fr, fmt.Sprintf("%s.g%d", where, i), false))
 	}
 	return out
+}
+
+// shapeKey summarises the constant part of a state.
+func shapeKey(s *State) string {
+	var ks []string
+	for k, c := range s.cells {
+		if cv, ok := constOf(c.V); ok {
+			ks = append(ks, k+"="+strconv.FormatInt(cv, 10))
+		}
+	}
+	sort.Strings(ks)
+	return strings.Join(ks, ";") + fmt.Sprintf("|h%d", len(s.hits))
 }
 
 func partitionKey(s *State) string {
@@ -1102,15 +1210,78 @@ func (e *Engine) joinAllDefs(ss []*State, fr *Frame, where string, head bool, pe
 			R.dirty[k] = p
 		}
 	}
-	for r, h := range ss[0].hits {
-		keep := true
-		for _, s := range ss[1:] {
-			if h2, ok := s.hits[r]; !ok || h2.h.key() != h.h.key() || h2.mask != h.mask {
-				keep = false
-			}
+	{
+		// search hits: identical ones survive as they are; hits of the same search call
+		// (one per side) are merged into a hit over joined symbols
+		var rs []Sym
+		for r := range ss[0].hits {
+			rs = append(rs, r)
 		}
-		if keep {
-			R.hits[r] = h
+		sortSyms(rs)
+		for _, r := range rs {
+			h := ss[0].hits[r]
+			keep := true
+			for _, s := range ss[1:] {
+				if h2, ok := s.hits[r]; !ok || h2.h.key() != h.h.key() || h2.mask != h.mask || h2.nlen.Key() != h.nlen.Key() {
+					keep = false
+				}
+			}
+			if keep {
+				R.hits[r] = h
+				continue
+			}
+			if h.org == nil || h.h.Const != nil {
+				continue
+			}
+			sides := make([]searchHit, len(ss))
+			syms := make([]Sym, len(ss))
+			ok := true
+			for i, s := range ss {
+				n := 0
+				for r2, h2 := range s.hits {
+					if h2.org == h.org {
+						n++
+						sides[i], syms[i] = h2, r2
+					}
+				}
+				if n != 1 || sides[i].h.Const != nil || sides[i].h.Root != h.h.Root {
+					ok = false
+					break
+				}
+			}
+			if !ok {
+				continue
+			}
+			tag := fmt.Sprintf("hit%d", h.org.Pos())
+			pick := func(sub string, get func(i int) Lin) Lin {
+				ls := make([]Lin, len(ss))
+				same := true
+				for i := range ss {
+					ls[i] = get(i)
+					if !ls[i].Equal(ls[0]) {
+						same = false
+					}
+				}
+				if same {
+					return ls[0]
+				}
+				return mergeInt(tag+sub, ls)
+			}
+			rl := make([]Lin, len(ss))
+			for i := range ss {
+				rl[i] = V(syms[i])
+			}
+			zr := mergeInt(tag+".r", rl).T[0].S
+			nh := searchHit{org: h.org, c: h.c, mask: h.mask}
+			nh.h = StrV{Root: h.h.Root, Lo: pick(".lo", func(i int) Lin { return sides[i].h.Lo }), Hi: pick(".hi", func(i int) Lin { return sides[i].h.Hi })}
+			nh.nlen = pick(".n", func(i int) Lin { return sides[i].nlen })
+			for _, sd := range sides[1:] {
+				if sd.c != nh.c {
+					nh.c = -1
+				}
+				nh.mask = nh.mask.or(sd.mask)
+			}
+			R.hits[zr] = nh
 		}
 	}
 	// ---- constraints
@@ -1240,6 +1411,43 @@ func (e *Engine) joinAllDefs(ss []*State, fr *Frame, where string, head bool, pe
 			addCand(li.L.Sub(strLen(sv)))
 			addCand(li.L.AddK(-inv.Max))
 			addCand(li.L.Neg())
+		}
+	}
+	// (e) span template: a string-valued field and an integer field of the same
+	// object, merged here — "the integer fits in the string" (lo + n ≤ hi, n ≥ 0)
+	{
+		isDef := map[Sym]bool{}
+		for _, d := range defs {
+			isDef[d.z] = true
+		}
+		touches := func(l Lin) bool {
+			for _, t := range l.T {
+				if isDef[t.S] {
+					return true
+				}
+			}
+			return false
+		}
+		for _, k := range cks {
+			c, ok := R.cells[k]
+			if !ok {
+				continue
+			}
+			sv, isS := c.V.(StrV)
+			if !isS || sv.Const != nil {
+				continue
+			}
+			for _, k2 := range cks {
+				c2, ok := R.cells[k2]
+				if !ok || c2.P.Key != c.P.Key {
+					continue
+				}
+				iv, isI := c2.V.(IntV)
+				if !isI || iv.L.IsConst() || !(touches(iv.L) || touches(sv.Lo)) {
+					continue
+				}
+				addCand(sv.Lo.Add(iv.L).Sub(sv.Hi))
+			}
 		}
 	}
 	// a constraint over symbols that nothing in the joined state refers to is garbage
